@@ -27,7 +27,7 @@ Violation keys:  <set>/generate/raises/<option|default|row:bits>, <set>/inventor
 <set>/<fn>/companion_missing:<sym>, <set>/header/missing:<fn>, <set>/compile/error,
 <set>/compile/warning:<flag>, <set>/<fn>/load_error, <set>/<fn>/value_mismatch,
 <set>/<fn>/nan_pattern."""
-import ast
+import ast, tempfile
 import contextlib
 import importlib
 import inspect
@@ -82,16 +82,46 @@ def quiet():
 
 
 def option_defaults(fn):
-    """The literal dictionary `p = {...}` of accepted options (key -> default) of a generate_code."""
-    tree = ast.parse(textwrap.dedent(inspect.getsource(fn)))
-    for node in ast.walk(tree):
-        if (isinstance(node, ast.Assign) and len(node.targets) == 1 and isinstance(node.targets[0], ast.Name)
-                and node.targets[0].id == "p" and isinstance(node.value, ast.Dict)):
-            d = ast.literal_eval(node.value)
-            if not all(isinstance(k, str) and isinstance(v, bool) for k, v in d.items()):
-                raise MachineryError(f"{fn.__module__}.generate_code: option dictionary is not str -> bool: {d}")
-            return d
-    raise MachineryError(f"{fn.__module__}.generate_code: no literal option dictionary `p = {{...}}` found")
+    """Accepted options (key -> default) of a generate_code: observed at run time by letting the generator
+    build its option dictionary and intercepting the casadi.CodeGenerator(name, opts) call (robust against
+    refactorings of how the dictionary is built); the literal `p = {...}` in the source is only a cross-check."""
+    captured = {}
+
+    class _Spy(Exception):
+        pass
+
+    def spy(name, opts=None):
+        captured.update(opts or {})
+        raise _Spy()
+    orig = ca.CodeGenerator
+    ca.CodeGenerator = spy
+    tmp = tempfile.mkdtemp(prefix="c09opt_")
+    try:
+        x = ca.SX.sym("x")
+        f = ca.Function("f", [x], [2 * x])
+        params = list(inspect.signature(fn).parameters)
+        kw = {}
+        for nm in params:
+            if nm == "eqs":
+                kw[nm] = {"f": {"f": f}} if "filename" not in params else {"f": f}
+            elif nm == "filename":
+                kw[nm] = "f.c"
+            elif nm == "dest_dir":
+                kw[nm] = tmp
+        try:
+            with quiet():
+                fn(**kw)
+        except _Spy:
+            pass
+        except Exception as ex:     # noqa
+            raise MachineryError(f"{fn.__module__}.generate_code: cannot observe its option dictionary: {type(ex).__name__}: {ex}")
+    finally:
+        ca.CodeGenerator = orig
+        shutil.rmtree(tmp, ignore_errors=True)
+    d = {k: v for k, v in captured.items() if k != "force_canonical"}
+    if not d or not all(isinstance(k, str) and isinstance(v, bool) for k, v in d.items()):
+        raise MachineryError(f"{fn.__module__}.generate_code: option dictionary is not str -> bool: {d}")
+    return d
 
 
 def main_block_info(modname):
@@ -831,6 +861,57 @@ def replay(run, info, path):
     return run.finish({"traces_validated_against_impl": 1, "programs": len(f_by), "disagreements_checked": n, "replayed": path})
 
 
+def _snapshot(d):
+    out = {}
+    for fn in sorted(os.listdir(d)):
+        with open(os.path.join(d, fn), "rb") as fh:
+            out[fn] = fh.read()
+    return out
+
+
+def sequence_check(run, info, defaults):
+    """histories of generator calls in ONE process: default options, then every single-option toggle, then
+    default options again -- the two default artefacts must be byte-identical (the option combination of a
+    call must not depend on earlier calls: 'every accepted generator option combination' includes the
+    default one after any other).  Found missing by a seeded change that shared one mutable option dict."""
+    seen = set()
+    n = 0
+    for s in SET_ORDER:
+        gen = SPEC_GEN[s]
+        if gen in seen:
+            continue
+        seen.add(gen)
+        call = info[s]["call"]
+        base = os.path.join(G["scratch"], "seq_" + gen)
+        try:
+            d1 = os.path.join(base, "first"); os.makedirs(d1)
+            with quiet():
+                call(d1)
+            first = _snapshot(d1)
+            for k, v in defaults[gen].items():
+                dk = os.path.join(base, "t_" + k); os.makedirs(dk)
+                try:
+                    with quiet():
+                        call(dk, **{k: (not v)})
+                except Exception:       # noqa: failing rows are judged by the row checks
+                    pass
+                n += 1
+            d2 = os.path.join(base, "again"); os.makedirs(d2)
+            with quiet():
+                call(d2)
+            again = _snapshot(d2)
+            if first != again:
+                diff = sorted(set(first) ^ set(again)) or [f for f in first if first[f] != again.get(f)]
+                run.violation(f"{s}/generate/state_leak", "a call with default options produces a different artefact after calls with "
+                              f"other options in the same process (differs: {diff[:4]})",
+                              {"kind": "sequence", "set": s, "files_first": sorted(first), "files_again": sorted(again)})
+        except Exception as ex:     # noqa
+            run.violation(f"{s}/generate/raises/default_in_sequence", f"{type(ex).__name__}: {ex}", {"kind": "sequence", "set": s})
+        finally:
+            shutil.rmtree(base, ignore_errors=True)
+    run.count("sequence_calls", n)
+
+
 def main():
     tier = sys.argv[1] if len(sys.argv) > 1 else "quick"
     run = Run(PID, tier, level="translation_validation")
@@ -841,6 +922,7 @@ def main():
     G["info"] = info
     if "--replay" in sys.argv:
         return replay(run, info, sys.argv[sys.argv.index("--replay") + 1])
+    sequence_check(run, info, defaults)
 
     # ---- TLC on the configuration model, instantiated with the repository's export lists
     mc = write_mc(info, defaults, run.workdir)
